@@ -78,10 +78,27 @@ pub fn to_signal(s: &Sig) -> Signal {
         InVal::V(n) => InputValue::Value(n),
         InVal::Z => InputValue::Z,
     };
-    match s.kind {
-        SigKind::In(v) => Signal::input(s.name.clone(), s.bits, d(v)),
+    match &s.kind {
+        SigKind::In(v) => Signal::input(s.name.clone(), s.bits, d(*v)),
         SigKind::Out => Signal::output(s.name.clone(), s.bits),
-        SigKind::Bidir(v) => Signal::bidirectional(s.name.clone(), s.bits, d(v)),
+        SigKind::Bidir(v) => Signal::bidirectional(s.name.clone(), s.bits, d(*v)),
+        SigKind::Virtual(e) => {
+            // the only public way to obtain a Virtual signal: declare it in a donor test and
+            // take it from that test's `signals`
+            let text = crate::pp::ExprPrinter { redundant: false, tight: false }.print(e);
+            let src = format!("dn\ndeclare {} = {};\n0\n", s.name, text);
+            let mut sigs = vec![Signal::input("dn", 1, 0)];
+            for n in e.idents() {
+                if !sigs.iter().any(|x| x.name == n) {
+                    sigs.push(Signal::output(n, 64));
+                }
+            }
+            let tc = ParsedTestCase::from_str(&src)
+                .expect("donor test parses")
+                .with_signals(sigs)
+                .expect("donor test binds");
+            tc.signals.last().unwrap().clone()
+        }
     }
 }
 pub fn from_in(v: InputValue) -> InVal {
